@@ -14,7 +14,7 @@ Require Import RV.Lib.PyStr RV.Model.ContentLine RV.Model.Vobj RV.Model.C14Spec 
 Require Import RV.Proofs.ExportProofs RV.Proofs.SplitProofs RV.Proofs.RegroupProofs RV.Proofs.UnfixedProofs.
 Require RV.Proofs.LinesProofs RV.Proofs.QpProofs RV.Proofs.TextProofs RV.Proofs.CleanupProofs RV.Proofs.TreeProofs RV.Proofs.C14Final
         RV.Proofs.CanonProofs RV.Proofs.FixedPointProofs RV.Proofs.SplitCrlfProofs
-        RV.Proofs.CodecProofs RV.Proofs.Utf8Proofs.
+        RV.Proofs.CodecProofs RV.Proofs.Utf8Proofs RV.Proofs.ZeroDurationProofs.
 Require Import RV.Model.Codec.
 Require RV.Gen.C14EncSites.
 Open Scope N_scope.
@@ -89,6 +89,26 @@ Theorem C14_cleanup_controls : forall s,
   (Forall (fun c => is_ctrl c = false) s -> strip_ctrl s = s).
 Proof. intros s. split; [apply CleanupProofs.strip_ctrl_idem|]. split; [apply CleanupProofs.strip_ctrl_clean|apply CleanupProofs.strip_ctrl_none]. Qed.
 Print Assumptions C14_cleanup_controls.
+
+(* The Thunderbird clean-up is a normalisation step with a guard: the DURATION lines of a component go ONLY when it has
+   a DTEND and its first DURATION is zero -- then all of them go --; without a DTEND, or with a non-zero first DURATION, the
+   step is the identity.  (An event of length DTSTART + DURATION:PT0S keeps its DURATION.) *)
+Theorem C14_cleanup_zero_duration_guard : forall ch,
+  (lines_named s_DTEND ch = [] -> fix_zero_duration ch = ch) /\
+  (forall d r, lines_named s_DURATION ch = d :: r -> duration_seconds (cl_value d) <> Some 0 -> fix_zero_duration ch = ch) /\
+  (fix_zero_duration ch <> ch ->
+     lines_named s_DTEND ch <> [] /\
+     (exists d r, lines_named s_DURATION ch = d :: r /\ duration_seconds (cl_value d) = Some 0) /\
+     fix_zero_duration ch = drop_named s_DURATION ch).
+Proof.
+  intros ch. split; [apply ZeroDurationProofs.zero_duration_needs_dtend|]. split; [apply ZeroDurationProofs.zero_duration_needs_zero|apply ZeroDurationProofs.zero_duration_effect].
+Qed.
+Print Assumptions C14_cleanup_zero_duration_guard.
+Theorem C14_cleanup_zero_duration_examples :
+  sanitize ZeroDurationProofs.ZeroDurationExample.instant = Some ZeroDurationProofs.ZeroDurationExample.instant /\
+  sanitize ZeroDurationProofs.ZeroDurationExample.lightning = Some ZeroDurationProofs.ZeroDurationExample.lightning_cleaned.
+Proof. exact ZeroDurationProofs.zero_duration_without_dtend_kept. Qed.
+Print Assumptions C14_cleanup_zero_duration_examples.
 
 (* zero DURATION next to DTEND, EXDATE/RDATE value type: cleaning a cleaned object changes nothing.  The side
    condition excludes one malformed input (DTSTART;VALUE=DATE-TIME with a DATE value), for which vobject rewrites
